@@ -34,6 +34,8 @@ class FakeTree:
         p = self.src
         if isinstance(p, ProfilePayload):
             return Obj(profmsgsrsv1=[Obj(status=Obj(code=0), profrs=Obj(dtprofup=p.date), msgsetlist=p.msgsets)])
+        if p == "UPTODATE":
+            return Obj(profmsgsrsv1=[Obj(status=Obj(code=1))])
         raise SyntaxError("unexpected document")
 
 
@@ -45,7 +47,8 @@ def mk_msgset(clsname, url, closingavail):
     """real *MSGSET model advertising `url` (built natively)"""
     K = ofxgen.class_by_name(clsname)
     a, k = ofxgen.base_instance(K)
-    inst = ofxgen.build(K, a, k)
+    import copy
+    inst = copy.deepcopy(ofxgen.build(K, a, k))          # sub-aggregates of generated instances are shared: never mutate them in place
     v1 = [v for v in inst.__dict__.values() if v is not None][0]
     v1.__dict__["msgsetcore"].__dict__["url"] = url
     if "closingavail" in v1.__dict__:
@@ -143,6 +146,60 @@ def h_send(ctx, kind):
     ctx.check("the client's cookie jar is never replaced", client.cookiejar is jar)
 
 
+def profile_date_of(body):
+    """DTPROFUP of a serialized profile request - read natively by the real parser"""
+    t = OFXTree()
+    t.parse(io.BytesIO(body))
+    return t.convert().profmsgsrqv1[0].profrq.dtprofup
+
+
+rt.NATIVE_FUNCS.add(profile_date_of)
+INSTITUTIONS = [("msdw.com", "1235", "msdw.com", "14137"), ("foo.com", "1", "foo.net", "1"), ("O", "1.5", "O", "1.7"), ("a.b", None, "a.c", None), ("A", "1", "A", "2")]
+
+
+def h_two_institutions(ctx):
+    """two institutions with different ORG/FID (dots included), one cache directory: a request for the first fills the cache,
+    then the second user's credentials must still go only where the second institution's own profile says"""
+    log = []
+    org1, fid1, org2, fid2 = ctx.choice("institutions", INSTITUTIONS)
+    newer = ctx.bool("second_profile_is_newer")
+    fs = FakeFS(log)
+    ctx.stub_attr(config, "DATADIR", FakePath(fs, ["data"]))
+    ctx.stub(Client, "open", fs.open)
+    import os
+    ctx.stub(os, "replace", fs.replace)
+    ctx.stub(Client, "OFXTree", FakeTree)
+    ctx.stub(Client, "BytesIO", fake_bytesio)
+    servers = {}
+    for n, date in (("one", datetime.datetime(2021, 1, 1, tzinfo=UTC)), ("two", datetime.datetime(2022 if newer else 2020, 1, 1, tzinfo=UTC))):
+        adv = "https://" + n + ".example/service"
+        servers["https://" + n + ".example/ofx"] = ProfilePayload(date, [mk_msgset("BANKMSGSET", adv, True), mk_msgset("SIGNUPMSGSET", adv, None)])
+
+    def responder(req):
+        uid, pw, is_prof = creds_of(req["data"])
+        if not is_prof:
+            return b"RESPONSE"
+        mine = servers[req["url"]]
+        have = profile_date_of(req["data"])
+        return "UPTODATE" if (have is not None and have >= mine.date) else mine
+    net = FakeNet(log, responder)
+    ctx.stub(urllib.request, "HTTPCookieProcessor", net.HTTPCookieProcessor)
+    ctx.stub(urllib.request, "build_opener", net.build_opener)
+    ctx.stub(urllib.request, "Request", net.Request)
+    c1 = OFXClient("https://one.example/ofx", userid="alice", org=org1, fid=fid1, bankid="B")
+    c2 = OFXClient("https://two.example/ofx", userid="bob", org=org2, fid=fid2, bankid="B")
+    c1.request_statements("pw-alice", StmtRq(acctid="1", accttype="CHECKING"))
+    c2.request_statements("pw-bob", StmtRq(acctid="2", accttype="CHECKING"))
+    for _, req, handlers, timeout in [e for e in log if e[0] == "POST"]:
+        uid, pw, is_prof = creds_of(req["data"])
+        if is_prof:
+            ctx.check("profile requests carry only the anonymous placeholder credentials", uid == AUTH_PLACEHOLDER and pw == AUTH_PLACEHOLDER)
+        else:
+            want = "https://one.example/service" if uid == "alice" else "https://two.example/service"
+            ctx.check("requests carrying the user's credentials go only to the URL the institution's own profile advertises", req["url"] == want)
+            ctx.check("the credentialed request carries the user's own id and password", (uid, pw) in (("alice", "pw-alice"), ("bob", "pw-bob")))
+
+
 def h_jars(ctx):
     a = OFXClient(URL_CFG)
     b = OFXClient(URL_CFG)
@@ -150,11 +207,12 @@ def h_jars(ctx):
     ctx.check("the jar is an instance attribute, not shared class state", "cookiejar" in a.__dict__ and "cookiejar" not in vars(OFXClient))
 
 
-HARNESSES = dict(send=h_send, jars=h_jars)
+HARNESSES = dict(send=h_send, jars=h_jars, two_institutions=h_two_institutions)
 
 META = dict(
     bounds=dict(requests="statements / account-info / tax / profile, each with symbolic dryrun, skip_profile, persist_cookies, advertised URL equal to or different from the configured one, profile cached or not",
-                profile="4 message sets advertising the service URL"),
+                profile="4 message sets advertising the service URL",
+                institutions="two clients of two institutions (5 ORG/FID pairs, with and without dots) sharing one cache directory, second server's profile older or newer"),
     models=["instrumented request_statements/request_accounts/request_tax1099/request_profile/_request_profile/_get_service_urls/download/post_request/http_headers/serialize",
             "stubs: urllib.request.build_opener/Request/HTTPCookieProcessor (effect log), config.DATADIR/open/os.replace (file model), OFXTree in Client (model view of the response), BytesIO"],
     assumptions=["behaviour of http.cookiejar / HTTPCookieProcessor themselves (trusted stdlib): 'replayed on later requests' is reduced to 'every opener of client A is built over A's own jar'",
@@ -167,4 +225,5 @@ def instances(tier, seed):
     for k in ("statements", "accounts", "tax", "profile"):
         out.append(dict(name=f"send[{k}]", harness="send", fn=h_send, params=dict(kind=k), opts=dict(wall_s=300, max_paths=2000)))
     out.append(dict(name="jars", harness="jars", fn=h_jars, params={}, opts=dict(wall_s=60)))
+    out.append(dict(name="two_institutions", harness="two_institutions", fn=h_two_institutions, params={}, opts=dict(wall_s=300)))
     return out
